@@ -395,10 +395,10 @@ func crafted() []string {
 	if ts, err := typesystem.NewAndValidate(context.Background(), m11.Proto(fgarun.ModelID)); err == nil {
 		out = append(out, caseLine(m11, ts, nil, []fga.Tuple{lax}, fga.Req{Obj: "doc:a", Rel: "viewer", User: "user:x"}))
 	}
-	// recursive strategy: Recursive.buildTupleMapperForID still applies its visited filter before the condition filter
-	// (the fix 1d97cee covers Resolver.buildIterator only): group:d is claimed by the conditioned tuple of group:c
-	// (condition false) and skipped when group:e reaches it unconditionally — depending on the order in which the
-	// breadth-first search visits group:c and group:e
+	// recursive strategy (finding V2-B(recursive), fixed by commit 11f1667: Recursive.buildTupleMapperForID applied its
+	// visited filter before the condition filter): group:d was claimed by the conditioned tuple of group:c (condition
+	// false) and skipped when group:e reached it unconditionally, depending on the order of the breadth-first search;
+	// reverting the fix makes the recursive runs of this case answer false
 	m12 := &fga.Model{Types: []*fga.TypeDef{{Name: "user"},
 		{Name: "group", Rels: []*fga.RelDef{{Name: "rmember", Rewrite: this(),
 			Restrs: []fga.Restr{u, {Typ: "group", Rel: "rmember", Cond: "c1"}, {Typ: "group", Rel: "rmember"}}}}}},
